@@ -329,8 +329,18 @@ var mapFields = map[string]map[uint64]bool{
 	"mb": {2: true, 3: true, 4: true, 5: true}, "bs": {1: true},
 }
 
-// canon returns b with the entries of every map field sorted by key.
-func canon(ty string, b []byte) []byte {
+// canon returns b with the entries of every map field sorted by key; bytes
+// that are not a well-formed encoding are returned unchanged.
+func canon(ty string, b []byte) (out []byte) {
+	defer func() {
+		if recover() != nil {
+			out = b
+		}
+	}()
+	return canonRaw(ty, b)
+}
+
+func canonRaw(ty string, b []byte) []byte {
 	if nested[ty] == nil && mapFields[ty] == nil {
 		return b
 	}
@@ -360,7 +370,7 @@ func canon(ty string, b []byte) []byte {
 		}
 		if sub, ok := nested[ty][r.num]; ok && r.wt == 2 {
 			out = append(out, b[r.from:r.pfrom]...)
-			out = append(out, canon(sub, b[r.pfrom:r.to])...)
+			out = append(out, canonRaw(sub, b[r.pfrom:r.to])...)
 		} else {
 			out = append(out, b[r.from:r.to]...)
 		}
@@ -502,6 +512,9 @@ func canonUpdate(b []byte) []byte {
 		return b
 	}
 	sz := u.Snapshot.Size()
+	if sz > len(b) {
+		return b
+	}
 	out := exact(b)
 	copy(out[len(b)-sz:], canon("sn", b[len(b)-sz:]))
 	return out
